@@ -14,11 +14,14 @@ from odxgen import sexp
 from odxgen import values as V
 
 ID = "C04"
-LEAN_TARGETS = ["OdxVerif.Props.C04", "OdxVerif.Props.C04Struct"]
+LEAN_TARGETS = ["OdxVerif.Props.C04", "OdxVerif.Props.C04Struct", "OdxVerif.Props.C04Nested"]
 DRIVERS = ["drv_codec"]
 P = "OdxVerif.Codec."
 THEOREMS = [P + t for t in ["C04_no_silent_corruption_partial", "C04_accepts_iff_representable", "C04_flat", "C04_condensed_counterexample", "encodeMessage_flat_bad", "encodeMessage_flat_unknown", "rawOfInt32_ok", "rawOfInt32_reject",
-                            "C04_struct_partial", "C04_struct_never_foreign", "C04_struct_accepts_iff", "encodeMessage_struct_cases", "struct_roundtrip_fill"]]
+                            "C04_struct_partial", "C04_struct_never_foreign", "C04_struct_accepts_iff", "encodeMessage_struct_cases", "struct_roundtrip_fill",
+                            # nested compositional tier (structures o fields o multiplexers, descriptions without baked-in values)
+                            "C04_nested_partial", "C04_nested_never_foreign", "C04_nested_accepts_iff", "encodeMessage_nested_cases", "DescribedP.ok",
+                            "DDesc.struct_ok", "DDesc.staticField_ok", "DDesc.dynLenField_ok", "DDesc.eopField_ok", "DDesc.mux_ok", "PDesc.ofValue_ok"]]
 RULE = ("direct oracle, model-free: for every description (odxgen, well-formed, loaded through the XML loader) x every assignment of the "
         "control stream (valid values) and of the malformed stream (harness/malformed.py: one damaged site per mutant - boundary +-1 of the "
         "representable range, wrong Python type, over-/under-long and empty strings/byte fields, non-encodable characters, terminators inside "
